@@ -169,12 +169,13 @@ type session struct {
 	ys              *yieldStore
 	feeLog          []feeEntry // inputs of WithdrawFee (pre-fee totals), in call order
 
-	mu         sync.Mutex
-	settleLog  []settleCall
-	settleHook func(account store.Account, amount *big.Int) error // nil = succeed
-	nonceLast  map[string]int64
-	connSeq    int
-	behave     func(hostIdx int, connID int, method, arg string) (time.Duration, error)
+	mu            sync.Mutex
+	nextUpdateCtx context.Context // context of the next direct keep-alive call (nil = background)
+	settleLog     []settleCall
+	settleHook    func(account store.Account, amount *big.Int) error // nil = succeed
+	nonceLast     map[string]int64
+	connSeq       int
+	behave        func(hostIdx int, connID int, method, arg string) (time.Duration, error)
 }
 
 func newSession(t interface{ Fatalf(string, ...interface{}) }, cfg sessCfg, nAgents int) *session {
@@ -460,7 +461,11 @@ func (s *session) update(i int, peerIDs []string, block uint64, enodeForm, viaRP
 			return &resp, nil
 		}
 	}
-	return s.pool.Update(rpcCtx(), sig, a.id.nodeID, n, req)
+	ctx := rpcCtx()
+	if s.nextUpdateCtx != nil {
+		ctx, s.nextUpdateCtx = s.nextUpdateCtx, nil
+	}
+	return s.pool.Update(ctx, sig, a.id.nodeID, n, req)
 }
 
 func (s *session) peer(i int, num int, kind string) (*pool.PeerResponse, error) {
